@@ -294,6 +294,8 @@ pub fn monitors(cfg: &CfgReq, handles: &[(usize, f64, f64)], pure_score: bool, l
                         if (st.thr - p).abs() > 1e-9 * (1.0 + p) {
                             let expect = st.thr < p;
                             if expect != acc {
+                                // the Metropolis clause (C07) at the temperature of the schedule (C18)
+                                out.push(Violation { prop: "C07", what: format!("step {} (loop {}): worse by {:e} at kT = {:e}: threshold {:e} vs exp(-d/kT) = {:e}, but the move was {}", k + 1, st.loop_idx, st.cur_before - n, kt, st.thr, p, if acc { "accepted" } else { "rejected" }) });
                                 out.push(Violation { prop: "C18", what: format!("step {} (loop {}): worse by {:e}, threshold {:e}, exp(-d/kT) = {:e} at the scheduled kT = {:e}, but the move was {}", k + 1, st.loop_idx, st.cur_before - n, st.thr, p, kt, if acc { "accepted" } else { "rejected" }) });
                             }
                         }
